@@ -9,6 +9,12 @@ after the simulation the same list must come out of saveâ†’load, EventLogWriterâ
 GeneratedEvLogSampler (packed and per-site triggers) replaying the recorded site signals, and
 EventConsumer.run must dispatch in non-decreasing cycle order.
 
+A share of the sites calls `EventSource.top_emit` directly (documented: "ignores m.If etc."): such a site is
+expected to fire in exactly the cycles where its `when` holds (any bit of a multi-bit `when`; always when
+`when` is left at its default), whatever the enclosing context does.  Contexts include m.AvoidedIf and
+m.FSM / m.State in a share of the runs; dynamic fields are up to 64 bits wide; some designs have no emission
+site at all; capture_evlog is also called without metadata.
+
 NOTE: no `from __future__ import annotations` here -- the @event decorator resolves the field
 annotations of the event classes, which are defined inside a function (lazily, once per process).
 """
@@ -20,7 +26,7 @@ from enum import Enum, IntEnum
 
 from ..comp import CompScenario
 from ..kernel import VERIF_DIR, Inconclusive, h64
-from ..models.ctxprog import CtxDesign, eval_sites, gen_ctx_stim, gen_prog, running_arg, to_signed
+from ..models.ctxprog import CtxDesign, CtxEval, gen_ctx_stim, gen_prog, running_arg, to_signed
 from ..propbase import PropBase, make_plan, phase_at
 
 
@@ -159,6 +165,10 @@ def defs():
 _WORK_SEQ = [0]
 
 
+def is_top(site):
+    return site.get("api") == "top"
+
+
 class Scen(CompScenario):
     # ---- design ---------------------------------------------------------------------------------
     def build(self):
@@ -192,6 +202,7 @@ class Scen(CompScenario):
                 self.site_sig[f"s{k}.{f['name']}"] = sig
                 self.add_input(f"s{k}.{f['name']}", sig)
 
+        self.ev = CtxEval(c["prog"])
         self.design = CtxDesign(c["prog"], self._emit)
         for name, sig in self.design.sig.items():
             self.add_input(name, sig)
@@ -239,12 +250,16 @@ class Scen(CompScenario):
         self.order.append(k)
         self.field_values[k] = vals
         ev = cls.hw(**kw)
-        loc = (f"c33_site_{k}.py", 100 + k)
+        opts = {}
+        if not s.get("defloc"):  # otherwise the default src_loc (the location of this call; not judged)
+            opts["src_loc"] = (f"c33_site_{k}.py", 100 + k)
+        if s["when"] != "always":  # otherwise the default when=1
+            opts["when"] = self.site_sig[f"s{k}.trig"]
         src_obj = self.sources[s["source"]]
-        if s["when"] == "always":
-            src_obj.emit(m, ev, src_loc=loc)
+        if is_top(s):  # no module: not gated by the context; a multi-bit `when` is passed as it is
+            src_obj.top_emit(ev, **opts)
         else:
-            src_obj.emit(m, ev, when=self.site_sig[f"s{k}.trig"], src_loc=loc)
+            src_obj.emit(m, ev, **opts)
 
     def post_elab(self, tm):
         from amaranth import Value
@@ -260,8 +275,20 @@ class Scen(CompScenario):
         for i, tr in sorted(self.design.trans.items()):
             self.add_obs(f"t{i}.run", tr.run)
         tick = make_tick_count_process()
-        self.metadata = {"verif": "C33", "nsites": len(self.sites), "nested": {"a": [1, 2, {"b": None}]}}
-        self.log, proc = capture_evlog(dict(self.metadata))
+        meta = self.cfg.get("meta", "dict")
+        if meta == "dict":
+            self.metadata = {"verif": "C33", "nsites": len(self.sites), "nested": {"a": [1, 2, {"b": None}]}}
+            self.log, proc = capture_evlog(dict(self.metadata))
+        else:  # documented as optional: the schema then carries no metadata
+            self.metadata = {}
+            try:
+                self.log, proc = capture_evlog() if meta == "none" else capture_evlog({})
+            except Exception as e:
+                self.expect(False, "capture-failed", f"capture_evlog({'' if meta == 'none' else '{}'}) raised "
+                            f"{type(e).__name__}: {e}", meta=meta)
+            self.hit("capture_without_metadata")
+        if not self.sites:
+            self.hit("design_without_emission_sites")
         self.extra_processes = [("process", proc), ("process", tick)]
 
         # -- the schema is the decoding contract: one site per emit call, in registration order
@@ -287,7 +314,7 @@ class Scen(CompScenario):
                     statics[name] = "n/a"  # the only static with a default
             ok = (site.source_name == self.cfg["sources"][s["source"]]
                   and site.event_name == f"verif.c33.{s['cls']}"
-                  and tuple(site.location) == (f"c33_site_{k}.py", 100 + k)
+                  and (s.get("defloc") or tuple(site.location) == (f"c33_site_{k}.py", 100 + k))
                   and site.fields == want_fields and site.statics == statics)
             self.expect(ok, "schema-mismatch", f"site {idx} (cfg site {k}): {site!r}, wanted fields {want_fields!r} "
                         f"statics {statics!r}", site=k)
@@ -361,7 +388,7 @@ class Scen(CompScenario):
     def check(self, cyc, stim, obs):
         if cyc > 0:
             self._compare_captured(cyc - 1)
-        ctx = eval_sites(self.cfg["prog"], stim, obs)
+        ctx = self.ev.step(stim, obs)
         trig_bits = []
         field_obs = []
         fired = []
@@ -370,12 +397,14 @@ class Scen(CompScenario):
             s = self.sites[k]
             c = ctx[k]
             active = c["body"] and c["cond"]
+            top = is_top(s)  # documented: top_emit "ignores m.If etc."
             trig = True if s["when"] == "always" else bool(stim.get(f"s{k}.trig", 0) & ((1 << s["whenw"]) - 1))
-            fire = trig and active
+            fire = trig and (active or top)
             got_t = obs[f"site{idx}.trig"]
             self.expect(got_t == int(fire), "trigger-mismatch",
-                        f"site {idx}: trigger signal {got_t}, but when={int(trig)} body-runs={int(c['body'])} "
-                        f"branches-selected={int(c['cond'])}", site=k, where=self.cfg["where"][str(k)][0])
+                        f"site {idx}{' (top_emit: not gated by its context)' if top else ''}: trigger signal {got_t}, "
+                        f"but when={int(trig)} body-runs={int(c['body'])} branches-selected={int(c['cond'])}", site=k,
+                        where=self.cfg["where"][str(k)][0], api="top_emit" if top else "emit")
             got_f = [obs[f"site{idx}.f{n}"] for n in range(len(s["fields"]))]
             if fire:
                 vals = [self._field_value(k, f, stim, obs, c["meth"]) for f in s["fields"]]
@@ -384,18 +413,38 @@ class Scen(CompScenario):
                 self.pending.append((cyc, idx, vals))
                 self.expected_raw.append((cyc, idx, vals))
                 fired.append(idx)
+                if top:
+                    self.hit("top_emit_fired")
+                    if not active:
+                        self.hit("top_emit_fires_outside_context")
+                    if s["when"] == "wide":
+                        self.hit("top_emit_multibit_when")
+                    elif s["when"] == "always":
+                        self.hit("top_emit_default_when")
+                if s.get("defloc"):
+                    self.hit("default_src_loc")
+                if active and c["fsm"]:
+                    self.hit("fired_in_fsm_state")
+                if active and c["av"]:
+                    self.hit("fired_under_avoided_if")
                 for f, v in zip(s["fields"], vals):
                     if v < 0:
                         self.hit("signed_negative_value")
+                        if v < -(1 << 31):
+                            self.hit("negative_value_wider_than_32_bits")
+                    if v.bit_length() > 32:
+                        self.hit("value_wider_than_32_bits")
                     if f["type"] == "bool" and v > 1:
                         self.hit("bool_field_from_wide_value")
                     if f["src"]["kind"] in ("arg", "sarg"):
                         self.hit("method_argument_field")
-                if c["meth"] is not None:
+                if not active:
+                    pass
+                elif c["meth"] is not None:
                     self.hit("fired_in_method_body")
                 elif self.cfg["where"][str(k)][0] == "trans":
                     self.hit("fired_in_transaction_body")
-                if s["when"] == "always":
+                if s["when"] == "always" and not top:
                     self.hit("fired_by_context_alone")
             elif trig:
                 self.hit("context_blocks_trigger")
@@ -403,6 +452,10 @@ class Scen(CompScenario):
                     self.hit("body_not_running_blocks")
                 else:
                     self.hit("branch_not_selected_blocks")
+                if c["fsm"] is False:
+                    self.hit("fsm_state_blocks")
+                if c["av"] is False:
+                    self.hit("avoided_if_blocks")
             trig_bits.append(got_t)
             field_obs.append(got_f)
             ctxsig.append((int(c["body"]), int(c["cond"]), int(trig)))
@@ -576,7 +629,10 @@ def _gen_src(rng, ftype, in_meth_argw):
     if in_meth_argw and r < 0.3:
         return {"kind": rng.choice(["arg", "sarg"])}
     if r < 0.7:
-        return {"kind": "sig", "w": rng.randint(1, 9), "signed": int(rng.random() < 0.45)}
+        w = rng.randint(1, 9)
+        if rng.random() < 0.25:  # wider than a small counter: up to 64 bits
+            w = rng.choice([rng.randint(10, 31), 32, 33, rng.randint(34, 63), 64, 64])
+        return {"kind": "sig", "w": w, "signed": int(rng.random() < 0.45)}
     if r < 0.8:
         return {"kind": "add", "w": rng.randint(1, 8), "signed": int(rng.random() < 0.5), "k": rng.choice([-5, -1, 1, 3, 200])}
     if r < 0.9:
@@ -603,17 +659,23 @@ class Prop(PropBase):
         "thorough": {"runs": 30000, "selftest_runs": 32},
     }
     rule = ("one run = one generated design (1-2 TModules, 0-3 transactions, 0-2 methods with ready inputs and "
-            "arguments, 2-5 emission sites under nested If/Elif/Else/Switch inside or outside bodies; event classes with "
-            "int/bool/enum dynamic and int/str/bool/enum static fields; field signals of width 1-9, signed, sliced, "
-            "summed, constant or a method argument) driven for 30-140 cycles by a phase plan; distinct = distinct "
+            "arguments, 2-5 (3%: no) emission sites -- EventSource.emit or, 22%, top_emit with a 1-4 bit or default "
+            "`when` -- under nested If/Elif/Else/Switch/AvoidedIf/FSM-State inside or outside bodies; event classes with "
+            "int/bool/enum dynamic and int/str/bool/enum static fields; field signals of width 1-64, signed, sliced, "
+            "summed, constant or a method argument; capture with or without metadata) driven for 30-140 cycles by a "
+            "phase plan; distinct = distinct "
             "(design, per-site (body runs, branches selected, trigger) vector, fired set); non-trivial = two or more "
             "sites fire or a raised trigger is blocked by its context")
     expected_cov = ["context_blocks_trigger", "body_not_running_blocks", "branch_not_selected_blocks",
                     "several_sites_same_cycle", "cycle_without_record", "signed_negative_value",
                     "bool_field_from_wide_value", "method_argument_field", "fired_in_method_body",
                     "fired_in_transaction_body", "fired_by_context_alone", "requested_transaction_not_run",
-                    "nonempty_log", "sampler_packed", "sampler_per_site", "consumer_input_out_of_order"]
-    real = ["transactron.evlog.emit.EventSource", "transactron.evlog.event (@event, Event.from_raw)",
+                    "nonempty_log", "sampler_packed", "sampler_per_site", "consumer_input_out_of_order",
+                    "top_emit_fired", "top_emit_fires_outside_context", "top_emit_multibit_when", "top_emit_default_when",
+                    "fired_in_fsm_state", "fsm_state_blocks", "fired_under_avoided_if", "avoided_if_blocks",
+                    "value_wider_than_32_bits", "negative_value_wider_than_32_bits", "design_without_emission_sites",
+                    "capture_without_metadata", "default_src_loc"]
+    real = ["transactron.evlog.emit.EventSource (emit, top_emit)", "transactron.evlog.event (@event, Event.from_raw)",
             "transactron.evlog.schema.schema_from_records / GeneratedEvLog", "transactron.testing.evlog.capture_evlog",
             "transactron.testing.tick_count.make_tick_count_process", "transactron.evlog.log.EventLog / EventLogWriter / "
             "EventLogReader / EventDecoder", "transactron.evlog.sampler.GeneratedEvLogSampler",
@@ -626,29 +688,40 @@ class Prop(PropBase):
                    "as the library's capture process produces it",
                    "enum-typed fields carry member values only (a non-member cannot be decoded and is outside the statement)",
                    "the cycle of a record is the library's tick counter (TicksKey), which counts clock edges from 0",
-                   "no I/O faults are injected: the property states none"]
+                   "no I/O faults are injected: the property states none",
+                   "top_emit: 'surrounding context' is read with the library's documentation of that function ('ignores "
+                   "m.If etc.'): the record is expected whenever `when` holds",
+                   "blank lines in a log file are not part of the documented format (header line + one line per event): "
+                   "not generated"]
 
     def gen_config(self, rng, tier, idx):
         big = tier == "thorough"
-        nsites = rng.randint(2, 5)
-        prog, where = gen_prog(rng, nsites)
+        nsites = 0 if rng.random() < 0.03 else rng.randint(2, 5)  # 0: a design that emits nothing
+        prog, where = gen_prog(rng, nsites, ext=rng.random() < 0.5)
         sources = ["verif.c33", "verif.c33.sub"]
         sites = []
         for k in range(nsites):
             cls = rng.choice(list(CLASSES))
             w = where[str(k)]
-            argw = prog["meths"][w[1]]["argw"] if w[0] == "meth" else 0
+            top = rng.random() < 0.22  # EventSource.top_emit: no module, not gated (and no method argument at hand)
+            argw = prog["meths"][w[1]]["argw"] if w[0] == "meth" and not top else 0
             fields = [{"name": n, "type": t, "src": _gen_src(rng, t, argw)} for n, t in CLASSES[cls][0]]
             statics = {}
             for n, t, has_default in CLASSES[cls][1]:
                 if has_default and rng.random() < 0.5:
                     continue
                 statics[n] = _gen_static(rng, t)
-            when = rng.choice(["bit", "bit", "bit", "wide", "always"])
-            sites.append({"cls": cls, "source": rng.randrange(2), "when": when,
-                          "whenw": 1 if when == "bit" else rng.randint(2, 4), "fields": fields, "statics": statics})
-        cycles = rng.randint(30, 140 if big else 90)
+            when = rng.choice(["bit", "bit", "wide", "wide", "always"] if top else ["bit", "bit", "bit", "wide", "always"])
+            site = {"cls": cls, "source": rng.randrange(2), "when": when,
+                    "whenw": 1 if when == "bit" else rng.randint(2, 4), "fields": fields, "statics": statics}
+            if top:
+                site["api"] = "top"
+            if rng.random() < 0.2:
+                site["defloc"] = 1  # src_loc left at its default
+            sites.append(site)
+        cycles = rng.randint(30, 140 if big else 90) if nsites else rng.randint(4, 24)
         return {"prog": prog, "where": where, "sites": sites, "sources": sources, "cycles": cycles,
+                "meta": rng.choice(["dict", "dict", "dict", "dict", "none", "none", "empty"]),
                 "perm": rng.getrandbits(32), "sched": rng.choice(["eager", "eager", "rr"]),
                 "plan": make_plan(rng, cycles, ["random", "random", "on", "off", "quiet", "flap"], min_len=5, max_len=30)}
 
@@ -657,10 +730,10 @@ class Prop(PropBase):
 
     def features(self, cfg, viol):
         info = viol.get("info") or {}
-        return {"where": info.get("where")}
+        return {"where": info.get("where"), "api": info.get("api")}
 
     def cfg_signature(self, cfg):
-        return [cfg["prog"], cfg["sites"], cfg["sched"]]
+        return [cfg["prog"], cfg["sites"], cfg["sched"], cfg.get("meta", "dict")]
 
 
 PROP = Prop()
